@@ -223,6 +223,15 @@ func (ctrl *QController[Input, Output]) Reconcile(ctx context.Context, logger *z
 		}
 
 		if ignoreTearingDown {
+			// the input is kept alive by other finalizers and it is processed as if it was running,
+			// so it has to carry the controller's finalizer before the output is created:
+			// otherwise the input might be destroyed as soon as the other finalizers are gone leaving the output orphaned
+			if !in.Metadata().Finalizers().Has(ctrl.Name()) {
+				if err := r.AddFinalizer(ctx, in.Metadata(), ctrl.Name()); err != nil {
+					return fmt.Errorf("error adding input finalizer: %w", err)
+				}
+			}
+
 			return ctrl.reconcileRunning(ctx, logger, r, in, mappedOut)
 		}
 
